@@ -124,7 +124,8 @@ NoConf == Conf("", 0, 0)
 Case(v, allocs, pod, conf) ==
     [fn |-> "add", kind |-> v[1], nettype |-> v[2], trunk |-> v[3], allocs |-> allocs, pod |-> pod, conf |-> conf]
 
-(* Back-end x pod network type x trunking.  local = node-local pool, crd = CRD multi-IP (Node CR),  *)
+(* Back-end x pod network type x trunking.  local = node-local pool (its answer built from the case; *)
+(* the real pool is kind localpool, slice E), crd = CRD multi-IP (Node CR),                         *)
 (* podeni = PodENI through the legacy remote back-end, crdpodeni = PodENI through the CRD back-end. *)
 SingleOnly == {<<"local", "multiip", FALSE>>, <<"local", "vpceni", FALSE>>, <<"crd", "multiip", FALSE>>}
 Multi == {<<k, t, tr>> : k \in {"podeni", "crdpodeni"}, t \in {"multiip", "vpceni"}, tr \in BOOLEAN}
@@ -206,11 +207,63 @@ SliceD == UNION {{Case(v, <<WithRoutes(BAlloc(1, "eth0", TRUE, st, v[3]), r)>>, 
           \cup {Case(v, <<WithRoutes(BAlloc(1, "eth0", TRUE, "v6", v[3]), r)>>, NoPod, NoConf) : v \in Multi, r \in RouteLists("v6")}
 
 ------------------------------------------------------------------------
+(* Slice E: the node-local pool itself (back-end kind "localpool").                                  *)
+(* Unlike kind "local" the allocation of the judged ADD is not built by the harness: the real pool    *)
+(* (pkg/eni Local under the real Manager) runs on a fake cloud and lives through a short history      *)
+(* before the judged ADD.  The case only says what the ENVIRONMENT answers:                           *)
+(*   allocs[1]  subnets, gateways (gw4/gw6, metadata service) and first addresses of the interface   *)
+(*              the cloud attaches in the case's subnets, i.e. the one that serves the judged ADD     *)
+(*   env.a      another interface A in other subnets, two addresses per family                        *)
+(*   env.more4/more6  a second address of the case's subnets                                          *)
+(* Like the real cloud the fake one reports an IPv6 subnet and gateway only for an interface that was  *)
+(* created with IPv6 addresses.  The pool is one interface slot; stack = the families of allocs[1]:     *)
+(* IPv4 or dual (the daemon's configuration check rejects ipStack "ipv6", there is no IPv6-only pool). *)
+(*   hist fresh          empty slot: the judged ADD makes the pool create the interface                *)
+(*        cached         an earlier pod came and went: the judged ADD is served from idle addresses    *)
+(*        shared         an earlier pod lives on the interface and holds its first addresses (more4 =   *)
+(*                       primary address, more6); the judged ADD gets further addresses assigned       *)
+(*        partial        two earlier pods; the second one left and the pool shrank (only that pod's    *)
+(*                       addresses were given back to the cloud), then the first one left              *)
+(*        reuse          an earlier pod lived on interface A and left, the pool shrank to nothing (A    *)
+(*                       deleted), the judged ADD creates the interface of the case in the same slot   *)
+(*        reuse_partial  two earlier pods on A left, the pool shrank by one address, then to nothing   *)
+(* The oracle is the one of every other ADD (R1-R5 on the reply).                                     *)
+
+SA4 == Sub(<<10, 200, 7, 0>>, 24)
+SA6 == Sub(<<253, 0, 0, 10, 0, 0, 0, 0, 0, 0, 0, 0, 0, 0, 0, 0>>, 64)                \* fd00:a::/64
+
+Iface(s4, as4, s6, as6) ==
+    [net4 |-> s4.base, plen4 |-> s4.plen, gw4 |-> Gateway(s4.base, s4.plen), ips4 |-> as4,
+     net6 |-> s6.base, plen6 |-> s6.plen, gw6 |-> Gateway(s6.base, s6.plen), ips6 |-> as6]
+More(s, a) == IF s = NoSub THEN <<>> ELSE <<CHOOSE x \in Pos(s) \ {a} : TRUE>>
+LEnv(st) ==
+    [a |-> Iface(SA4, <<First(SA4), AddLast(First(SA4), 1)>>, SA6, <<First(SA6), AddLast(First(SA6), 1)>>),
+     more4 |-> More(st[1], st[2]), more6 |-> More(st[3], st[4])]
+
+Hists == {"fresh", "cached", "shared", "partial", "reuse", "reuse_partial"}
+LV4 == <<S24, S28, S25>>
+LV6 == <<T64, T120, A64>>
+PosSeq(s) == SetToSeq(Pos(s))
+LDual(ix, k, jx, m) == <<LV4[ix], PosSeq(LV4[ix])[k], LV6[jx], PosSeq(LV6[jx])[m]>>
+LStacks ==
+    IF Tier = "thorough"
+    THEN UNION {{<<LV4[ix], a, NoSub, <<>>>> : a \in Pos(LV4[ix])} : ix \in 1..3}
+         \cup {LDual(ix, k, ix, k) : ix \in 1..3, k \in 1..4}
+         \cup {LDual(1, 2, 2, 3)}
+    ELSE {<<S28, First(S28), NoSub, <<>>>>, LDual(1, 1, 1, 1), LDual(2, 3, 2, 3), LDual(3, 4, 3, 4)}
+
+LCase(st, h) ==
+    [fn |-> "add", kind |-> "localpool", nettype |-> "multiip", trunk |-> FALSE,
+     allocs |-> <<Alloc("", TRUE, st[1], st[2], st[3], st[4], <<>>, 0)>>, pod |-> NoPod, conf |-> NoConf,
+     hist |-> h, env |-> LEnv(st)]
+SliceE == {LCase(st, h) : st \in LStacks, h \in Hists}
+
+------------------------------------------------------------------------
 (* The datapath selector on its own: every IP type x VLAN mode x trunk flag *)
 
 DpSet == {[fn |-> "datapath", iptype |-> t, vlan |-> vl, trunk |-> tr] : t \in {"vpcip", "vpceni", "multiip"}, vl \in Vlans, tr \in BOOLEAN}
 
-DomSet == SliceA \cup SliceB \cup SliceC \cup SliceD \cup DpSet
+DomSet == SliceA \cup SliceB \cup SliceC \cup SliceD \cup SliceE \cup DpSet
 DomSeq == SetToSeq(DomSet)
 
 ------------------------------------------------------------------------
@@ -316,6 +369,12 @@ ASSUME \A i \in Idx(V4Subs) : Pos(V4Subs[i]) # {} /\ \A a \in Pos(V4Subs[i]) : I
 ASSUME \A i \in Idx(V6Subs) : Pos(V6Subs[i]) # {} /\ \A a \in Pos(V6Subs[i]) : InCidr(a, V6Subs[i].base, V6Subs[i].plen)
 ASSUME InCidr(<<10, 0, 5, 30>>, <<10, 0, 5, 16>>, 28) /\ ~InCidr(<<10, 0, 5, 32>>, <<10, 0, 5, 16>>, 28)
 ASSUME ~InCidr(<<>>, <<>>, 0)
+ASSUME \A ix \in 1..3 : Cardinality(Pos(LV4[ix])) = 4 /\ Cardinality(Pos(LV6[ix])) = 4
+ASSUME \A c \in SliceE : LET a == c.allocs[1] IN
+          /\ a.ip4 # <<>>
+          /\ c.env.more4 # <<a.ip4>> /\ InCidr(c.env.more4[1], a.net4, a.plen4) /\ ~InCidr(c.env.a.ips4[1], a.net4, a.plen4)
+          /\ a.ip6 # <<>> => c.env.more6 # <<a.ip6>> /\ InCidr(c.env.more6[1], a.net6, a.plen6) /\ ~InCidr(c.env.a.ips6[1], a.net6, a.plen6)
+ASSUME Cardinality(SliceE) = Cardinality(LStacks) * 6 /\ Cardinality(LStacks) = (IF Tier = "thorough" THEN 25 ELSE 4)
 ASSUME Limit(0, 5) = {5} /\ Limit(8000000, 5) = {1000000} /\ Limit(12, 5) = {1, 2} /\ Limit(7, 5) = {0, 1}
 ASSUME RouteBag(<<R4a, R4b>>) = RouteBag(<<R4b, R4a>>) /\ RouteBag(<<R4a, R4a>>) # RouteBag(<<R4a>>)
 ASSUME Consistent([allocs |-> <<[ifname |-> "", def |-> FALSE]>>])
